@@ -55,6 +55,8 @@ class PathCtx:
         self.solver_s = 0.0
         self.fresh = 0
         self.notes = []
+        self.site = ""            # set by the interpreter: current function (for fork statistics)
+        self.fork_sites = {}
 
     def check(self, *extra):
         t0 = time.time()
@@ -63,6 +65,8 @@ class PathCtx:
         self.queries += 1
         if r == z3.unknown:
             raise Unsupported("solver returned unknown: " + self.solver.reason_unknown())
+        if r == z3.sat:
+            self.last_model = self.solver.model()
         return r == z3.sat
 
     def add(self, c):
@@ -71,6 +75,20 @@ class PathCtx:
             return
         self.pc.append(c)
         self.solver.add(bl(c))
+        m = getattr(self, "model_cache", None)
+        if m is not None and not z3.is_true(m.eval(bl(c), model_completion=True)):
+            self.model_cache = None
+
+    def _eval_cached(self, c):
+        m = getattr(self, "model_cache", None)
+        if m is None:
+            return None
+        v = m.eval(c, model_completion=True)
+        if z3.is_true(v):
+            return True
+        if z3.is_false(v):
+            return False
+        return None
 
     def branch(self, cond) -> bool:
         """decide a boolean; forks on symbolic conditions"""
@@ -86,17 +104,33 @@ class PathCtx:
             self.trace.append(out)
             self.add(c if out else z3.Not(c))
             return out
-        can_t = self.check(c)
-        can_f = self.check(z3.Not(c))
+        known = self._eval_cached(c)
+        m_t = m_f = None
+        if known is True:
+            can_t, m_t = True, self.model_cache
+            can_f = self.check(z3.Not(c))
+            m_f = self.last_model if can_f else None
+        elif known is False:
+            can_f, m_f = True, self.model_cache
+            can_t = self.check(c)
+            m_t = self.last_model if can_t else None
+        else:
+            can_t = self.check(c)
+            m_t = self.last_model if can_t else None
+            can_f = self.check(z3.Not(c))
+            m_f = self.last_model if can_f else None
         if can_t and can_f:
+            self.fork_sites[self.site] = self.fork_sites.get(self.site, 0) + 1
             self.pending.append(self.trace + [False])
             self.trace.append(True)
+            self.model_cache = m_t
             self.add(c)
             return True
         if not can_t and not can_f:
             raise PathAbort("infeasible path")
         out = can_t
         self.trace.append(out)
+        self.model_cache = m_t if out else m_f
         # implied by the path condition; recorded so that replays need no solver call
         return out
 
@@ -130,15 +164,29 @@ class PathCtx:
             else:
                 self.add(bv(val, w) == z3.BitVecVal(out, w))
             return out
-        feas = []
-        for o in options:
-            if self.check(bv(val, w) == z3.BitVecVal(mask(o, w), w)):
-                feas.append(o)
-        if self.check(z3.And([bv(val, w) != z3.BitVecVal(mask(o, w), w) for o in options]) if options else z3.BoolVal(True)):
-            feas.append("otherwise")
+        # model-guided enumeration of the feasible options (one query per feasible outcome)
+        feas, excluded, other = [], [], False
+        optset = {mask(o, w) for o in options}
+        V = bv(val, w)
+        while True:
+            cons = [V != z3.BitVecVal(o, w) for o in excluded]
+            if other:
+                cons.append(z3.Or([V == z3.BitVecVal(o, w) for o in optset]) if optset else z3.BoolVal(False))
+            if not self.check(*cons):
+                break
+            got = self.last_model.eval(V, model_completion=True).as_long()
+            if got in optset:
+                feas.append(got)
+                excluded.append(got)
+            else:
+                other = True
+                feas.append("otherwise")
+        feas.sort(key=lambda x: (x == "otherwise", x if x != "otherwise" else 0))
+        self.model_cache = None
         if not feas:
             raise PathAbort("infeasible path")
         for alt in feas[1:]:
+            self.fork_sites[self.site] = self.fork_sites.get(self.site, 0) + 1
             self.pending.append(self.trace + [alt])
         out = feas[0]
         self.trace.append(out)
@@ -441,6 +489,8 @@ class Interp:
             return Enum(ty, idx, vname, [])
         # function item / fn pointer
         if c.startswith("<") or self.resolve_fn(plain, c) is not None or self.models.lookup(plain) is not None:
+            if __import__("os").environ.get("MIRSYM_DEBUG"):
+                print("FnItem(fn) for const", c)
             return FnItem(c)
         if re.match(r"^[\w:]+$", plain) and plain.split("::")[-1][0].isupper():
             return Agg(plain, [])   # unit struct
@@ -665,6 +715,8 @@ class Interp:
                     r = type(v)(v.cell, v.path, conc)
                     return r
             return v
+        if kind == "Transmute" and to_ty.strip() in ("usize", "u64") and isinstance(v, (Ref, SliceRef)):
+            return 0x1000       # address of a live object: non-null, maximally aligned (UB checks)
         if kind in ("Transmute", "PtrToPtr", "PointerCoercion(MutToConstPointer, Implicit)", "PointerCoercion(MutToConstPointer, AsCast)") or kind.startswith("PointerCoercion(") or kind in ("FnPtrToPtr",):
             return v
         if kind in ("PointerExposeProvenance", "PointerWithExposedProvenance"):
@@ -719,6 +771,7 @@ class Interp:
                         raise Unsupported("intrinsic statement " + st[1][:40])
                 if self.steps > self.max_steps:
                     raise StepLimit(f"{self.steps} steps")
+                self.ctx.site = body.name
                 self.steps += 1
                 k = term[0]
                 if k == "goto":
